@@ -261,6 +261,9 @@ pub proof fn lemma_message_prefix_rejected(v: Version, h: Seq<u8>, b: Seq<u8>, k
 
 def build(ctx):
     C = ctx
+    C.helper_rewrites = [dict(rule='X5', pattern='tokio::task::JoinError', repl='JoinError'), dict(rule='X5', pattern='std::panic::resume_unwind', repl='resume_unwind'),
+                         dict(rule='X5', pattern='crate::connection::Connection', repl='Connection'), dict(rule='X5', pattern='crate::ConnectionOrigin', repl='ConnectionOrigin')]
+    C.helper_transforms = [lambda e: e.replace_macro('panic', 'explicit_panic()')]
     t = prelude.HEADER
     # ---- types (verbatim) --------------------------------------------------------------------------
     t += C.item(TYPES, 'enum Version', rewrites=[('X5', 'V1 = 1,', 'V1,', 1)])
